@@ -8,7 +8,7 @@ from typing import Dict, List, Optional
 
 from .. import alg
 from ..pat import Snips
-from ..util import lexical_guards, atomic_facts
+from ..util import arg_texts, arg_nodes, lexical_guards, atomic_facts
 from ..bellman import check_einsums_in_function, check_elementwise_in_function, monomials, classify_monomial
 from ..callgraph import CallGraph
 from ..cfg import cfg_of
@@ -232,7 +232,7 @@ def run(ctx: Ctx):
     ctx.check(bool(a1) and bool(a2), "NODE-1", ini, ini.node, "action order is mdp.actions(s) (optionally shuffled with the graph's generator)", "", "node action order is not derived from mdp.actions(s)")
     ao = a1[0][1]["action_order"] if a1 else "action_order"
     nc = [c for c in ast.walk(ini.node) if isinstance(c, ast.Call) and ast.unparse(c.func) == "Node"]
-    kw = {k.arg: ast.unparse(k.value) for k in nc[0].keywords} if nc else {}
+    kw = arg_texts(nc[0]) if nc else {}
     ok = kw.get("value") == f"self.heuristic({s_p})" and kw.get("optimal_action") == f"{ao}[0]" and kw.get("expanded") == "False" and kw.get("action_order") == ao and kw.get("state") == s_p
     ctx.check(ok, "NODE-1", ini, nc[0] if nc else ini.node, "new nodes start at the heuristic value with the first action of their own order", "", "node initialisation changed")
     ex_ = E.methods["expand_at"]
@@ -258,12 +258,12 @@ def run(ctx: Ctx):
     mp_ = po.positional_params[1]
     p1 = SPO.solve([f"explicit_graph, iterations = self._run_lao_star({mp_})", "solution_graph = explicit_graph.solution_graph()"])
     rr = [n for n in fn_body_nodes(po) if isinstance(n, ast.Return) and isinstance(n.value, ast.Call)]
-    kw = {k.arg: ast.unparse(k.value) for k in rr[0].value.keywords} if rr else {}
+    kw = arg_texts(rr[0].value) if rr else {}
     pe_ = p1[0] if p1 else {}
     ok = p1 is not None and p1[1][0].lineno < p1[1][1].lineno and kw.get("converged") == f"{pe_.get('solution_graph')}.is_solved()"
     ctx.check(ok, "BEL-5", po, rr[0] if rr else po.node, "converged = solved-predicate of the final solution graph", "", "converged is not the solved predicate of the solution graph computed after the search")
     ok = p1 is not None and kw.get("initial_value") == f"{pe_['explicit_graph']}.initial_value()" and kw.get("state_value_map") == f"{pe_['explicit_graph']}.state_value_map()" \
-        and kw.get("policy") == f"self._create_policy({pe_['solution_graph']}, {mp_})"
+        and SPO.m(f"self._create_policy(sg, {mp_})", arg_nodes(rr[0].value).get("policy"), {"sg": pe_["solution_graph"]}) is not None
     ctx.check(ok, "BEL-6", po, rr[0] if rr else po.node, "reported values / policy come from the final explicit and solution graphs", "", "result wiring changed")
     iv = E.methods["initial_value"]
     acc = [n for n in ast.walk(iv.node) if isinstance(n, ast.AugAssign)]
